@@ -5,6 +5,7 @@ import FqModel.C14Hash
 import FqModel.C14Json
 import FqModel.C14Xml
 import FqModel.C14Csv
+import FqModel.C14Large
 /-!
   driver for C14.  Case lines (everything binary/text is lower-case hex, `-` = empty):
 
@@ -416,6 +417,57 @@ def stepJson (jq : Bool) (ind : Nat) (dir input obs : String) : String :=
       | some none, .ok _ _ => mkVerdict none (some (showPR m))
   | _ => "BADOP json-op"
 
+/-! large / composite inputs:  `<codec> lrt <seed> <nbytes> <trim> <pieces>`   TAB  `<n> <hashes> <n> <hashes>|err`
+    `<hash> lhash <seed> <nbytes> <trim> <pieces>`  TAB  `<digest hex>`
+    The source is hlib.NewRand(seed).Bytes(nbytes) with the last `trim` bits cut off; `pieces` says how the
+    harness composed the input binary (plain, or an array of members) and does not enter the expected value:
+    the result is a function of the bit string (Props.C14 *_chunk_independent). -/
+open FqModel.C14Large in
+def stepLarge (codec : String) (args : List String) (obs : String) : String :=
+  match args.map String.toNat? with
+  | [some seed, some n, some trim, _] =>
+    if trim ≥ 8 || (n == 0 && trim != 0) then "BADOP trim" else
+    let src := trimmed (FqModel.LargeObs.genBytes seed n) trim
+    let orig := src.toList
+    -- tie of the array code to the list definition on small cases
+    if n ≤ 64 && trimmedSpec (FqModel.LargeObs.genBytes seed n).toList trim != orig then "BADOP self-check trimmed" else
+    let mEnc : Option Bytes :=
+      match binCodec codec with
+      | some (enc, _) => some (encChunked enc chunk orig)
+      | none => none
+    match mEnc with
+    | none => "BADOP codec"
+    | some mText =>
+      -- self check of the chunked evaluation against the list definition (theorem: equal for all inputs)
+      if n ≤ 9000 && (binCodec codec).map (fun c => c.1 orig) != some mText then "BADOP self-check chunked" else
+      match words obs with
+      | ["err"] => "PROPFAIL encoder-error-in-domain"
+      | [tn, th, "err"] =>
+        let _ := tn; let _ := th
+        "PROPFAIL roundtrip from(to(x))=err"
+      | [tn, th, dn, dh] =>
+        match tn.toNat?, dn.toNat? with
+        | some tn, some dn =>
+          let encBad := FqModel.LargeObs.compare (ByteArray.mk mText.toArray) tn th
+          let rtBad := FqModel.LargeObs.compare src dn dh
+          match rtBad, encBad with
+          | some w, _ => s!"PROPFAIL roundtrip from(to(x)) differs from x: {w}"
+          | none, some w => s!"PROPFAIL encoding-differs-from-reference: {w}"
+          | none, none => "OK"
+        | _, _ => "BADOP obs"
+      | _ => "BADOP obs"
+  | _ => "BADOP args"
+
+open FqModel.C14Large in
+def stepLargeHash (h : String) (args : List String) (obs : String) : String :=
+  match hashFn h, args.map String.toNat? with
+  | some f, [some seed, some n, some trim, _] =>
+    if trim ≥ 8 || (n == 0 && trim != 0) then "BADOP trim" else
+    let src := trimmed (FqModel.LargeObs.genBytes seed n) trim
+    let m := hx (f src.toList)
+    if obs == m then "OK" else s!"PROPFAIL digest-differs-from-reference ;DIVERGE model={m}"
+  | _, _ => "BADOP lhash"
+
 def stepC14 (op obs : String) : String :=
   if (obs.splitOn "panic").length > 1 then "PROPFAIL go-panic" else
   if (obs.splitOn "timeout").length > 1 then "PROPFAIL does-not-terminate" else
@@ -502,6 +554,8 @@ def stepC14 (op obs : String) : String :=
       let m := hx (f (bitsToBytesPadR bits))
       if obs == m then "OK" else s!"PROPFAIL digest-differs-from-reference ;DIVERGE model={m}"
     | _, _ => "BADOP hash"
+  | [codec, "lrt", a, b, c, d] => stepLarge codec [a, b, c, d] obs
+  | [h, "lhash", a, b, c, d] => stepLargeHash h [a, b, c, d] obs
   | [codec, "rt", input] =>
     match binCodec codec, strCodec codec, txtCodec codec with
     | some (enc, dec), _, _ =>
